@@ -23,7 +23,7 @@ import (
 // produces on a server that serves it alone.
 func PlayMulti(beh M, rng *rand.Rand, proj *Projection) ([][]M, error) {
 	cfg := M{"auth": "none", "tls": "nil", "params": M{"shared": "x"}, "version": "15", "mw": []any{"ok"}, "term": "ok", "limit": 65536}
-	cfg["_ext"] = I(beh, "_i") % 2 // every other execution runs with a type extension registered
+	cfg["_ext"] = []int{0, 1, 3, 5}[I(beh, "_i")%4] // type extensions registered: none, one, several
 	if I(beh, "_i")%5 == 2 {
 		cfg["auth"] = "clear" // overlapping password logins of different users
 	}
